@@ -52,7 +52,7 @@ prop('C04', ['T5', 'N1', 'N2', 'F8', 'M4', 'K4'],
      'node_entries (M4); the backwards walkers reverse their result (K4).',
      ['accessor(tree) is the leaf', 'prefix-freeness of paths', 'codify/eval agreement'])
 
-prop('C05', ['F1', 'F2', 'F3', 'F4', 'W2', 'K3', 'M7'],
+prop('C05', ['F1', 'F2', 'F3', 'F4', 'W2', 'K3', 'M7', 'P1'],
      'tree_map family, structural part: options forwarded unchanged (F1); the six map functions, '
      'three transpose-map and three broadcast-map functions are one normal form modulo the '
      'declared variation points, with the extra iterable first (F2); every rest is matched by an '
@@ -60,7 +60,8 @@ prop('C05', ['F1', 'F2', 'F3', 'F4', 'W2', 'K3', 'M7'],
      '"ValueError before f is called at all" clause (F3); the map object is consumed exactly once '
      'and func is used nowhere else (F4); traverse/walk call f_leaf in the leaf arm in traversal '
      'order and f_node once per node after its children were popped (W2); flatten_up_to uses the '
-     'same kind arms and key pipeline as flatten (K3, M7).',
+     'same kind arms and key pipeline as flatten (K3, M7) and pairs dict children of a rest with '
+     'the treespec\'s own keys (P1).',
      ['argument identity', 'functor laws'])
 
 prop('C06', ['H1', 'H4', 'H2', 'H3'],
@@ -115,10 +116,11 @@ prop('C11', ['S1', 'S2', 'S3', 'K2'],
      'reads rely on (S3).',
      ['cross-process behaviour', 'protocols', 'post-load equality'])
 
-prop('C12', ['G1', 'G2', 'G3', 'G4', 'G5', 'L4', 'K6', 'K6py'],
+prop('C12', ['G1', 'G2', 'G3', 'G4', 'G5', 'G6', 'L4', 'K6', 'K6py'],
      'Registry: validation dominates mutation and nothing fallible follows the first mutation '
      '(G1); no C-API failure result is ignored (G2); the Python mirror is written only after the '
-     'engine call, under the lock, with the same key, by exactly two functions (G3); all six entry '
+     'engine call, under the lock, with the same key, by exactly two functions (G3); a mutation '
+     'addressed to a namespace touches only that namespace\'s map (G6); all six entry '
      'points validate class and namespace first (G4); references are paired (G5); check-then-act '
      'is one exclusive region and Lookup returns by value (L4); lookup order in engine and Python '
      'twin, and the Python listing lets the namespace entry win (K6, K6py).',
